@@ -38,6 +38,15 @@ func main() {
 	dumpCFG := flag.String("dump-cfg", "", "print the (spliced) control-flow graph of the named function and exit")
 	meta := flag.Bool("meta", false, "print the rule metadata of all properties as JSON and exit")
 	flag.Parse()
+	if an.ReferenceDir == "" {
+		// the snapshot lives next to the checker (…/bin/jetverif → …/reference), not in the output directory
+		if exe, err := os.Executable(); err == nil {
+			an.ReferenceDir = filepath.Join(filepath.Dir(filepath.Dir(exe)), "reference")
+		}
+		if _, err := os.Stat(an.ReferenceDir); err != nil {
+			an.ReferenceDir = filepath.Join(*out, "reference")
+		}
+	}
 	if *meta {
 		out := map[string]interface{}{}
 		for _, id := range rules.IDs() {
